@@ -391,10 +391,14 @@ PROPS['C07'] = {'suites': [{'name': 'chan', 'quick': 2000, 'thorough': 60000}, {
                'the last value and the following read nothing; kinds are independent channels; every listed component reads each of its readers '
                'exactly once per on_start_processing, so a pending command is applied in the next callback and in no other; a command written before '
                "pickup is applied in the resource's first callback (with the storage model). The model agrees with real command channels on every "
-               "generated op and schedule, and the delivery schedule agrees with kira's sub-track / static sound / clock / streaming sound",
+               "generated op and schedule, and the delivery schedule agrees with kira's sub-track / static sound / clock / streaming sound; "
+               'real static sounds (channels + the static sound model, C07_static_sound_all_kinds_same_callback, C07_pickup_runs_on_start) on the main '
+               'track, a sub-track and a nested sub-track agree bit for bit on state(), position() and the output level after every callback, with '
+               'several commands of different kinds per interval and commands issued before the first callback',
  'level_note': 'atomicity inside triple_buffer is modelled from its source (SeqCst interleavings; weak memory unmodelled); the per-component reader '
-               'lists are transcribed from the Rust source (validated by the deliver suite for track volume, static seek_by, clock ticking, '
-               'streaming seek_to — not for every kind of every handle); the streaming decoder reads its readers only while its thread runs: '
+               'lists are transcribed from the Rust source (validated by the deliver suite for track volume, clock ticking, streaming seek_to and, '
+               'for static sounds, pause / resume / stop / seek_by / seek_to / set_volume / set_playback_rate with instant tweens — not for every kind '
+               'of every handle); the streaming decoder reads its readers only while its thread runs: '
                'C07_drained_once_decoder_partial, refuted beyond that by C07_streaming_command_lost_after_end (known finding)',
  'assumptions': ['sequentially consistent interleaving of the atomic actions of triple_buffer (AcqRel swaps around exclusive buffers)',
                  'one writer thread and one reader thread per channel (both ends are used through &mut)']}
@@ -404,7 +408,7 @@ PROPS['C08'] = {'suites': [{'name': 'storage', 'quick': 5000, 'thorough': 100000
               'model of backend/resources.rs + atomic-arena + rtrb; the same definitions run as the twin and are diffed against the real '
               "ResourceStorage / SelfReferentialResourceStorage / ResourceController (histories and scripted two-thread schedules through kira's "
               'yield points) and against AudioManager driven through the public API with callbacks on a dedicated thread',
- 'level_text': 'Lean theorems, for every capacity > 0 and every interleaving of the create path (reserve, drain unused, push new; flag stores) with '
+ 'level_text': 'Lean theorems, for every capacity (0 included: C08_capacity_zero_limit) and every interleaving of the create path (reserve, drain unused, push new; flag stores) with '
                "the audio thread's remove-and-add (visit, remove, push unused, pop new, insert): count = reserved + in-ring + alive + "
                'flagged-not-yet-removed <= capacity and try_reserve succeeds iff count < capacity; the new-resource ring, the arena insert and '
                'try_reserve never fail; a flagged resource in the arena when a callback begins is out of it (slot freed, generation bumped) when its '
@@ -414,10 +418,12 @@ PROPS['C08'] = {'suites': [{'name': 'storage', 'quick': 5000, 'thorough': 100000
                'listeners',
  'level_note': "C08_queue_bounds holds only at the granularity of the existing yield sites (C08_queue_bounds_partial): at the code's granularity the "
                'unused-ring push can overflow (C08_queue_bounds_refuted_fine, replayable on the real code once the yield site of hook_request.diff '
-               "exists); capacity 0 panics (C08_capacity_zero_panics, known finding); atomic-arena's CAS loops are modelled as single atomic actions "
+               "exists); capacity 0 gives the limit error since kira 9d3e102 (C08_capacity_zero_limit; before, try_reserve panicked); the theorems other than "
+               "C08_capacity_exact / C08_capacity_zero_limit / C08_queue_bounds_new keep the hypothesis capacity > 0 (with capacity 0 there is no key at all); "
+               "a play whose into_sound() fails touches no storage (C08_failed_play_no_leak); atomic-arena's CAS loops are modelled as single atomic actions "
                '(one reserver, one freer); rtrb as a linearizable FIFO; destruction when whole rings/storages are dropped is outside the model '
                '(exercised by the drop-thread oracle); C08_selfref_keys is stated for the sequential operations',
- 'assumptions': ['capacity > 0 (capacity 0 is the recorded defect)',
+ 'assumptions': [
                  'one creation in flight per controller (every kira caller holds &mut on the controller)',
                  'generation counters do not wrap']}
 
